@@ -114,6 +114,12 @@ def main():
         if not all(lexable(s) for s in syms) or len(set(syms)) < k: continue
         terms = [(s, rng.choice([1, 2, -1, -2, 3, -3, 12, -21, 10, 130])) for s in syms]
         cases.append({"op": "spellings", "texts": spellings(rng, terms)})
+    # every registered dimensionless unit as the denominator of a ratio, under several numerators: the spellings of one expression agree
+    dimless = [s_ for s_, u_ in T["usym"] if not u_["d"] and lexable(s_) and s_ not in ("1",)]
+    for d_ in dimless:
+        for n_ in ("m", "W", "kg"):
+            if n_ == d_: continue
+            cases.append({"op": "spellings", "texts": [f"{n_}/{d_}", f"{n_} / {d_}", f"{n_}⋅{d_}⁻¹", f"{n_}*{d_}^-1", f"{n_} {d_}^-1"]})
     # resolution: every prefix symbol in front of every unit symbol, every name, every symbol, random strings
     res_start = len(cases)
     psyms = [s for s, p in T["psym"]]
